@@ -146,6 +146,12 @@ def run(pid: str, tier: str) -> dict:
                 drift.append(f"{item[0]} after {json.dumps(t['h'])}")
     b = trace_validation(pid, tier)
     viol += b["violations"]
+    import repotrace
+    rt = repotrace.run(pid)
+    viol += rt["violations"]
+    if rt.get("note"):
+        drift.append(rt["note"])
+    states += rt["states"]
     ind = None
     if pid == "C08" and tier == "thorough":
         ind, iv = inductive(1)
@@ -153,19 +159,20 @@ def run(pid: str, tier: str) -> dict:
         states += ind["states"]
         ntrans += ind["transitions"]
     cov = {"states": max(1, states + b["states"]), "transitions": max(1, ntrans),
-           "traces_validated_against_impl": nrep + b["traces"], "samples": samples[:6] + b["samples"][:2], "exhaustive": True,
+           "traces_validated_against_impl": nrep + b["traces"] + rt["traces"], "samples": samples[:6] + b["samples"][:2], "exhaustive": True,
            "explanation": "every history of public construction/read calls up to the depth bound over the small universe explored by TLC "
                           "(invariants CacheCoherent, OnlyNodes, WellTyped; transition assertions ReadFresh, MalformedRejected, "
                           "WellFormedAccepted, GraphIsDescribed, ValidIff) and every generated transition replayed into the real library; "
                           f"plus {b['traces']} recorded random histories validated by TLC (Trace_Build).",
            "runs": [dict(profile=p_, universe=u_, depth=d_, maxpath=m_) for p_, u_, d_, m_ in PLANS[pid][tier]],
            "transitions_replayed": nrep, "distinct_graphs_reached": len(graphs), "recorded_histories": b["traces"],
-           "recorded_calls": b["calls"], "inductive_step": ind}
+           "recorded_calls": b["calls"], "inductive_step": ind,
+           "repository_test_executions_validated": rt["traces"], "repository_test_calls_validated": rt["calls"]}
     return {"violations": viol, "coverage": cov, "level": "model_checking", "drift": sorted(set(drift))[:10],
             "assumptions": ["TLC; the projection harness/buildrun.py; networkx as ground truth for recomputation",
                             "exhaustive only within the universe and depth stated; random histories beyond"],
             "headline": f"{nrep} transitions replayed ({len(graphs)} distinct graphs), {b['traces']} recorded histories validated, "
-                        f"{len(viol)} findings"}
+                        f"{rt['traces']} executions of the repository's tests validated, {len(viol)} findings"}
 
 
 def implementation_inval_table():
